@@ -1,6 +1,6 @@
 (* C17 model: the write/delete state machine of a build context.
 
-   Mirrors (pinned tree, including its defects):
+   Mirrors (current tree, including its defects):
    - pkg/api/api_impl.go  validateBuildOptions   (the last lines: AllowOverwrite forced on iff !Write)
    - pkg/api/api_impl.go  rebuildImpl            (newHashes, toDelete, shouldWriteFiles, skip of unchanged files,
                                                   stdout mode, cancel, on-end callbacks AFTER the writes)
@@ -156,9 +156,12 @@ Definition skip (st : state) (newH : fmap hash) (o : outfile) : bool :=
   | _, _ => false
   end.
 
-(* [fixed = false] is the pinned code.  [fixed = true] is the candidate repair
-   of DESIGN §7-F: a build that has errors when the write phase starts neither
-   deletes anything nor forgets the previous hash table. *)
+(* [fixed = true] is the code as of /repo commit d19e8cb ("fix: a failed rebuild
+   must not delete the previous build's output files"): rebuildImpl now does
+   [if log.HasErrors() { newHashes = oldHashes }] before the write phase, so a
+   build that has errors at that point neither deletes anything nor forgets
+   the previous hash table.  [fixed = false] is rebuildImpl before that commit
+   (DESIGN §7-F), kept so that what the repair changed stays a theorem. *)
 Definition step_gen (fixed : bool) (opt : options) (st : state) (oc : outcome) : state * result :=
   let '(results, err1) :=
     if scan_err oc then ([], true)
@@ -181,8 +184,8 @@ Definition step_gen (fixed : bool) (opt : options) (st : state) (oc : outcome) :
   (mkState (apply (disk st) effects) (if fixed && err1 then latest st else newH),
    mkResult err1 (err1 || err2 || onend_err oc) reported effects out).
 
-Definition step := step_gen false.
-Definition step_fixed := step_gen true.
+Definition step := step_gen true.
+Definition step_before_fix := step_gen false.
 
 (* histories of one context: options are fixed at context creation *)
 Fixpoint trace_gen (fixed : bool) (opt : options) (st : state) (ocs : list outcome) : list result :=
@@ -192,8 +195,8 @@ Fixpoint trace_gen (fixed : bool) (opt : options) (st : state) (ocs : list outco
   end.
 Definition run_gen (fixed : bool) (opt : options) (st : state) (ocs : list outcome) : state :=
   fold_left (fun s oc => fst (step_gen fixed opt s oc)) ocs st.
-Definition trace := trace_gen false.
-Definition run := run_gen false.
+Definition trace := trace_gen true.
+Definition run := run_gen true.
 
 End WithFS.
 
